@@ -582,6 +582,37 @@ def rule_s12(ctx, F):
                     "ts_node_first_child_for_byte returns no child for a byte inside a hidden child's trailing hidden token" % (show(c)[:80], iterated, subj[0] if subj else "?"), {"site": fn.loc((bid, 0))})
 
 
+def rule_s13(ctx, F):
+    """S13: for the smallest-descendant search a node is "empty" when its *content* is empty (start == end).  An empty
+    node may end exactly at the start of the searched range; whether it does is a question about where the node starts
+    and ends, not about the whitespace before it.  A zero-width token that carries padding (an external scanner skipped
+    blanks and emitted an empty token) must still be found for the range [p, p] at its position."""
+    for name, start_fn in (("ts_node__descendant_for_byte_range", "ts_node_start_byte"), ("ts_node__descendant_for_point_range", "ts_node_start_point")):
+        fn = ctx.need_fn(F, name, "S13")
+        if not fn:
+            continue
+        key = "%s:emptiness-is-start-equals-end" % name.replace("ts_node__", "")
+        ids = fn.ids_named("is_empty")
+        ds = [d for i in ids for d in fn.defs(i) if isinstance(d, dict) and d.get("k") not in ("uninit", "param")]
+        if not ds:
+            conds = [fn.cond(b.id) for b in fn.blocks.values() if fn.cond(b.id) is not None and start_fn in show(fn.cond(b.id)) and "node_end" in show(fn.cond(b.id))]
+            if conds:
+                ctx.ok("S13", key, "emptiness is tested inline as `%s`" % show(conds[0])[:60], nontrivial=False)
+            else:
+                ctx.bad("S13", key, "%s no longer has an emptiness test comparing the child's start with its end" % name)
+            continue
+        txt = show(ds[0])
+        callee = callee_name(strip(ds[0])) if strip(ds[0]).get("k") == "call" else None
+        if callee and callee in F.fns:
+            rets = [show(e["e"]) for pt, e in F.fns[callee].points() if e.get("k") == "ret" and e.get("e") is not None]
+            txt += " := " + " | ".join(rets)
+        if ("total_bytes" in txt or "padding" in txt) or not (start_fn in txt or "ts_subtree_size" in txt):
+            ctx.bad("S13", key, "%s decides emptiness by `%s`: a zero-width node with padding is not treated as empty, so descendant_for_range(p, p) at its position returns its neighbour although "
+                    "child-by-index and the cursor show the node there" % (name, txt[:90]))
+        else:
+            ctx.ok("S13", key, "a child is empty iff `%s`" % txt[:70])
+
+
 def rule_s8(ctx, F):
     """S8: a field lookup answers only from map entries of the requested field.  The entries of a production are
     sorted by field id; ts_node_child_by_field_id narrows [field_map, field_map_end) from both sides and then
@@ -662,6 +693,7 @@ def run(ctx):
         rule_s10(ctx, F)
         rule_s11(ctx, F)
         rule_s12(ctx, F)
+        rule_s13(ctx, F)
         rule_v1(ctx, F)
     return ctx.finish(
         "Sibling-agreement (CFG isomorphism under substitution), field-coverage and index-width rules over node.c / tree_cursor.c: byte- and point-range "
